@@ -975,3 +975,58 @@ Section IppLoops.
              end
     end.
 End IppLoops.
+
+(* ------------------------------------------------------------------ *)
+(* Datagram connections and the read loop of the relaying services (services/copy.go,
+   services/dns-proxy.go, UDP branch).
+
+   What a handler reads from is listener.DummyUDPConn (listener/udp_conn.go), possibly behind
+   the server's peek wrapper (server/peek-connection.go: the bytes already peeked are handed
+   out first, then the wrapped connection is read); server.TimeoutConn passes every Read
+   through.  [dgconn] is the list of pending pieces: [[datagram]], or [[peeked; rest]], and []
+   once everything is consumed (a zero-length datagram is [] from the start).
+
+   DummyUDPConn.Read(p):
+       if len(dc.Buffer) == 0 && len(p) > 0 { return 0, io.EOF }
+       n := copy(p, dc.Buffer); dc.Buffer = dc.Buffer[n:]; return n, nil
+   so a Read into an EMPTY slice is answered (0, nil) - also when the datagram is consumed.
+   The result is (bytes handed out, end of stream reported, connection afterwards). *)
+Definition dgconn := list bytes.
+
+Definition dg_read (c : dgconn) (k : nat) : bytes * bool * dgconn :=
+  match c with
+  | [] => match k with
+          | O => ([], false, [])       (* (0, nil): nothing to copy into, no end of stream *)
+          | S _ => ([], true, [])      (* (0, io.EOF) *)
+          end
+  | s :: r => (firstn k s, false, match skipn k s with [] => r | rest => rest :: r end)
+  end.
+
+Definition dg_weight (c : dgconn) : nat := (length (concat c) + length c)%nat.
+
+(* buff := make([]byte, b); n := 0
+   for n < len(buff) { k, err := conn.Read(buff[n:]); n += k; if err != nil { break } }
+   [bounded = false] is the same loop without its condition, "for { ... }", which leaves it
+   to the connection to report its end.  Result: buff[:n] and the number of Read calls;
+   None = still looping when the fuel is gone. *)
+Fixpoint dg_loop (bounded : bool) (fuel : nat) (b : nat) (acc : bytes) (c : dgconn) (reads : nat)
+  : option (bytes * nat) :=
+  match fuel with
+  | O => None
+  | S f =>
+      if bounded && negb (length acc <? b)%nat then Some (acc, reads)
+      else let '(d, eof, c') := dg_read c (b - length acc) in
+           if eof then Some (acc ++ d, S reads)
+           else dg_loop bounded f b (acc ++ d) c' (S reads)
+  end.
+
+(* the receive buffer of copyService.Handle / dnsProxy.Handle *)
+Definition DGBUF : nat := N.to_nat 65535.
+
+(* the datagram as the socket listener hands it over: one piece, none for a zero-length one *)
+Definition dg_of (d : bytes) : dgconn := match d with [] => [] | _ => [d] end.
+
+(* what the relaying handlers do with a datagram: the bytes they forward (nothing is dialled
+   for n = 0) and the Read calls they make *)
+Definition dg_relay (d : bytes) : option (bytes * nat) :=
+  dg_loop true 4 DGBUF [] (dg_of d) 0.
